@@ -263,7 +263,8 @@ package wire
 //@   ensures [nothing] result.1 != nil ==> (#nOut == old(#nOut) && #cyc == old(#cyc))
 //@   ensures [cb-no-ZE] #nZ == old(#nZ) && #nE == old(#nE)
 //@   ensures [cb-cycle] (old(#cyc) == 0 || old(#cyc) == 1) ==> InStmt(#cyc)
-//@   modifies WriterState(writer.client), Out()
+//@   ensures [alloc-bound] {C04} #maxalloc <= max(old(#maxalloc), writer.reader.MaxMessageSize)
+//@   modifies WriterState(writer.client), Out(), #maxalloc, #nalloc
 
 // ---- ParseParameters (C20) ------------------------------------------------------------
 // Relative to the list of regexp matches (what the expression matches is regexp's
@@ -389,6 +390,7 @@ package wire
 //@   props C07 C04
 //@   refines iface wire.StatementCache.Set
 //@   requires cache != nil && stmt != nil
+//@   requires [declared-limit] len(stmt.parameters) <= 65535
 //@   ensures [stored] result == nil && mapdom(cache.statements, name) && fresh(cache.statements[name]) && cache.statements[name].fn == stmt.fn && cache.statements[name].parameters == stmt.parameters && cache.statements[name].columns == stmt.columns
 //@   ensures [whole-view] forall k :: k != name ==> ((mapdom(cache.statements, k) <==> old(mapdom(cache.statements, k))) && (mapdom(cache.statements, k) ==> cache.statements[k] == old(cache.statements[k])))
 //@   ensures [own-map] cache.statements == old(cache.statements) || fresh(cache.statements)
@@ -421,6 +423,7 @@ package wire
 //@ func (*DefaultPortalCache).Execute
 //@   props C07 C08 C06 C05 C04
 //@   refines iface wire.PortalCache.Execute
+//@   ghostparam wa wi
 //@   requires cache != nil && ctx != nil && WriterReady(writer) && reader != nil
 //@   requires [portals-wellformed] forall k :: mapdom(cache.portals, k) ==> (cache.portals[k] != nil && cache.portals[k].statement != nil && cache.portals[k].statement.fn != nil)
 //@   callsite callback:wire.PreparedStatementFn [delivers] {C08 C07} $self == cache.portals[name].statement.fn && $parameters == cache.portals[name].parameters && cast($writer, "*wire.dataWriter").formats == cache.portals[name].formats && cast($writer, "*wire.dataWriter").columns == cache.portals[name].statement.columns && cast($writer, "*wire.dataWriter").client == writer && cast($writer, "*wire.dataWriter").reader == reader && $ctx == ctx
@@ -944,3 +947,110 @@ package wire
 //@   ensures [closing-set] {C16} srv.closing.#aval && result == nil
 //@   ensures [waited] {C16} !old(srv.closing.#aval) ==> srv.wg.#wgcnt == 0
 //@   modifies srv.closing.#aval, srv.wg.#wgcnt, chanstate(srv.closer)
+
+// ---- options: each returns a closure applied by NewServer to the server under construction ----
+
+//@ func Statements$1
+//@   props C04 C15
+//@   requires srv != nil
+//@   ensures result == nil
+//@   modifies srv.*
+
+//@ func Portals$1
+//@   props C04 C15
+//@   requires srv != nil
+//@   ensures result == nil
+//@   modifies srv.*
+
+//@ func CloseConn$1
+//@   props C04 C15
+//@   requires srv != nil
+//@   ensures result == nil
+//@   modifies srv.*
+
+//@ func TerminateConn$1
+//@   props C04 C15
+//@   requires srv != nil
+//@   ensures result == nil
+//@   modifies srv.*
+
+//@ func MessageBufferSize$1
+//@   props C04 C15
+//@   requires srv != nil
+//@   ensures result == nil
+//@   modifies srv.*
+
+//@ func TLSConfig$1
+//@   props C04 C15
+//@   requires srv != nil
+//@   ensures result == nil
+//@   modifies srv.*
+
+//@ func SessionAuthStrategy$1
+//@   props C04 C15
+//@   requires srv != nil
+//@   ensures result == nil
+//@   modifies srv.*
+
+//@ func GlobalParameters$1
+//@   props C04 C15
+//@   requires srv != nil
+//@   ensures result == nil
+//@   modifies srv.*
+
+//@ func Logger$1
+//@   props C04 C15
+//@   requires srv != nil
+//@   ensures result == nil
+//@   modifies srv.*
+
+//@ func Version$1
+//@   props C04 C15
+//@   requires srv != nil
+//@   ensures result == nil
+//@   modifies srv.*
+
+//@ func ExtendTypes
+//@   props C04 C15
+//@   requires [fn-nonnil] fn != nil
+//@   ensures result != nil
+//@   modifies nothing
+
+//@ func ExtendTypes$1
+//@   props C04 C15
+//@   requires [captured] fn != nil
+//@   requires srv != nil
+//@   modifies srv.types.#memo
+
+//@ func WithColumns$1
+//@   props C04
+//@   requires stmt != nil
+//@   modifies stmt.columns
+
+//@ func WithParameters$1
+//@   props C04
+//@   requires stmt != nil
+//@   modifies stmt.parameters
+
+//@ func NewServer
+//@   props C04 C15 C19
+//@   requires [options-nonnil] each(options, o, o != nil)
+//@   ensures ret1 == nil ==> (ret0 != nil && fresh(ret0))
+//@   modifies everything
+//@   loop 0
+//@     invariant [range] -1 <= $index && $index + 1 <= len(options) && srv != nil && srv > old(#alloc)
+//@     invariant [options-nonnil] each(options, o, o != nil)
+//@     decreases len(options) - $index
+
+// The accept loop and its goroutines: scheduling and goroutine creation are outside the
+// verified subset (DESIGN §6); listed in every evidence file as not verified.
+//@ func (*Server).Serve
+//@   skip creates goroutines (accept loop); scheduling is outside the verified subset
+//@ func (*Server).Serve$1
+//@   skip goroutine body of the accept loop (waits on a channel)
+//@ func (*Server).Serve$2
+//@   skip goroutine body of the accept loop (runs serve for one connection)
+//@ func (*Server).ListenAndServe
+//@   skip calls Serve
+//@ func ListenAndServe
+//@   skip calls Serve
